@@ -209,6 +209,85 @@ mod imp {
         })
     }
 
+    /// accessors of a numeric / boolean Polars column (owned `ChunkedArray<T>` and `&ChunkedArray<T>`)
+    macro_rules! typed_column {
+        ($name:ident, $Ca:ty, $nat:ty) => {
+            pub fn $name(vals: &[Option<$nat>], chunks: &[usize]) -> Outcome<Vec<String>> {
+                use polars::prelude::NewChunkedArray;
+                let mut pos = 0;
+                let mut ca: Option<$Ca> = None;
+                for &c in chunks {
+                    let part = <$Ca>::from_slice_options("".into(), &vals[pos..pos + c]);
+                    pos += c;
+                    ca = Some(match ca {
+                        None => part,
+                        Some(mut acc) => {
+                            acc.append(&part).unwrap();
+                            acc
+                        }
+                    });
+                }
+                let ca = ca.unwrap_or_else(|| <$Ca>::from_slice_options("".into(), &[]));
+                let want: Vec<Option<$nat>> = vals.to_vec();
+                catch(move || {
+                    let n = want.len();
+                    let mut bad = vec![];
+                    macro_rules! on {
+                        ($v:expr, $V:ty, $label:expr) => {{
+                            let v = $v;
+                            if <$V as GetLen>::len(&v) != n {
+                                bad.push(format!("{} len() = {}", $label, <$V as GetLen>::len(&v)));
+                            } else {
+                                for i in 0..=n {
+                                    match <$V as Vec1View<Option<$nat>>>::get(&v, i) {
+                                        Ok(x) if i < n && x == want[i] => {}
+                                        Err(_) if i == n => {}
+                                        other => bad.push(format!("{} get({i}) = {:?}", $label, other.map_err(|e| e.to_string()))),
+                                    }
+                                    if i < n {
+                                        let x = unsafe { <$V as Vec1View<Option<$nat>>>::uget(&v, i) };
+                                        if x != want[i] {
+                                            bad.push(format!("{} uget({i}) = {:?}", $label, x));
+                                        }
+                                    }
+                                }
+                                let fwd: Vec<Option<$nat>> = <$V as TIter<Option<$nat>>>::titer(&v).collect();
+                                if fwd != want {
+                                    bad.push(format!("{} titer() = {fwd:?}", $label));
+                                }
+                                let mut bwd: Vec<Option<$nat>> = <$V as TIter<Option<$nat>>>::titer(&v).rev().collect();
+                                bwd.reverse();
+                                if bwd != want {
+                                    bad.push(format!("{} titer().rev() reversed = {bwd:?}", $label));
+                                }
+                                for a in 0..=n {
+                                    for b in a..=n {
+                                        match <$V as Vec1View<Option<$nat>>>::slice(&v, a, b) {
+                                            Ok(s) => {
+                                                let items: Vec<Option<$nat>> = (&s).into_iter().collect();
+                                                if items != want[a..b] {
+                                                    bad.push(format!("{} slice({a},{b}) = {items:?}", $label));
+                                                }
+                                            }
+                                            Err(e) => bad.push(format!("{} slice({a},{b}) = Err({e})", $label)),
+                                        }
+                                    }
+                                }
+                            }
+                        }};
+                    }
+                    on!(&ca, &$Ca, "&column");
+                    on!(ca.clone(), $Ca, "column");
+                    bad
+                })
+            }
+        };
+    }
+    typed_column!(int32_column, polars::prelude::Int32Chunked, i32);
+    typed_column!(int64_column, polars::prelude::Int64Chunked, i64);
+    typed_column!(float32_column, polars::prelude::Float32Chunked, f32);
+    typed_column!(bool_column, polars::prelude::BooleanChunked, bool);
+
     /// Polars String column: accessors of `&StringChunked`
     pub fn string_column(vals: &[Option<String>], chunks: &[usize]) -> Outcome<Vec<String>> {
         use polars::prelude::{NewChunkedArray, StringChunked};
@@ -556,6 +635,16 @@ fn check_word(word: &[u8], alpha: &[X], level: u8, ctx: &mut Ctx) {
                     // F36: the millisecond impl matched TimeUnit::Microseconds
                     let f36 = unit == 2 && format!("{got:?}").contains("should be milliseconds unit");
                     viol(ctx, format!("DatetimeChunked({uname}).titer::<DateTime<{uname}>>"), if f36 { Some("F36".into()) } else { None }, x.len() * 100, json!({"family": fam, "word": word, "instants": ints, "unit": uname, "chunks": ch}), format!("len {} and the stored instants {}", x.len(), show_cells(&want)), format!("{got:?}").chars().take(300).collect());
+                }
+            }
+            let i32s: Vec<Option<i32>> = x.iter().map(|v| v.map(|a| a as i32 * 7 - 3)).collect();
+            let f32s: Vec<Option<f32>> = x.iter().map(|v| v.map(|a| a as f32 + 0.5)).collect();
+            let bools: Vec<Option<bool>> = x.iter().map(|v| v.map(|a| a > 0.5)).collect();
+            for (cname, got) in [("Int32Chunked", int32_column(&i32s, &ch)), ("Int64Chunked", int64_column(&ints, &ch)), ("Float32Chunked", float32_column(&f32s, &ch)), ("BooleanChunked", bool_column(&bools, &ch))] {
+                ctx.eval(fam, hash_bytes(format!("{cname}{got:?}").as_bytes()));
+                ctx.transitions += 1;
+                if !matches!(&got, Outcome::Ok(bad) if bad.is_empty()) {
+                    viol(ctx, format!("accessors({cname})"), None, x.len() * 100, json!({"family": fam, "word": word, "series": json_word(&x), "chunks": ch}), "all accessors describe the logical sequence".into(), format!("{got:?}").chars().take(300).collect());
                 }
             }
             let got = string_column(&strs, &ch);
